@@ -85,6 +85,27 @@ def _c_alias(mod):
     return '_C'
 
 
+def _pos_params(fn):
+    return [a for a in fn.args.posonlyargs + fn.args.args]
+
+
+def func_param(fn):
+    """the mapped-function parameter: the first positional parameter annotated Callable (its
+    spelling is not part of the interface: it is positional-only)"""
+    for a in _pos_params(fn):
+        if a.annotation is not None and src(a.annotation).startswith('Callable'):
+            return a.arg
+    return 'func'
+
+
+def tree_param(fn):
+    """the tree parameter: the first positional parameter annotated PyTree[...]"""
+    for a in _pos_params(fn):
+        if a.annotation is not None and src(a.annotation).startswith('PyTree'):
+            return a.arg
+    return 'tree'
+
+
 def _is_flag_of_own_treespec(fn, expr, opt):
     """expr is `<T>.<opt>` where T is the treespec returned by a flatten call of this function
     that was given the function's own <opt>"""
@@ -260,12 +281,12 @@ def map_descriptor(mod, fn, calias='_C'):
             d['flat_args_ok'] = True
             d['flat_args_form'] = form
             flat_var = tg[0]
-    maps = [c for c in calls_under(fn) if call_name(c) == 'map' and c.args and is_name(c.args[0], 'func')]
+    maps = [c for c in calls_under(fn) if call_name(c) == 'map' and c.args and is_name(c.args[0], func_param(fn))]
     d['map_calls'] = len(maps)
     if maps:
         m = maps[0]
         a = m.args
-        d['map_first_is_func'] = bool(a) and is_name(a[0], 'func')
+        d['map_first_is_func'] = bool(a) and is_name(a[0], func_param(fn))
         rest = a[1:]
         extra = None
         if rest and isinstance(rest[-1], ast.Starred) and is_name(rest[-1].value, flat_var):
@@ -305,7 +326,7 @@ def map_descriptor(mod, fn, calias='_C'):
     rets = [s for s in walk(fn) if isinstance(s, ast.Return)]
     if len(rets) == 1 and rets[0].value is not None:
         v = rets[0].value
-        if is_name(v, 'tree'):
+        if is_name(v, tree_param(fn)):
             d['returns'] = 'tree'
         elif isinstance(v, ast.Call) and call_name(v) == '%s.unflatten' % spec_var:
             d['returns'] = 'unflatten'
@@ -355,11 +376,11 @@ def f2(ctx):
         if len(rets) == 1 and isinstance(rets[0].value, ast.Call):
             c = rets[0].value
             why = 'returns %s' % call_name(c)
-            if call_name(c) == inner and len(c.args) == 2 and is_name(c.args[0], 'func') and \
+            if call_name(c) == inner and len(c.args) == 2 and is_name(c.args[0], func_param(fn)) and \
                     isinstance(c.args[1], ast.Starred) and isinstance(c.args[1].value, ast.Call) and \
                     call_name(c.args[1].value) == '_tree_broadcast_common':
                 bc = c.args[1].value
-                if len(bc.args) == 2 and is_name(bc.args[0], 'tree') and \
+                if len(bc.args) == 2 and is_name(bc.args[0], tree_param(fn)) and \
                         isinstance(bc.args[1], ast.Starred) and is_name(bc.args[1].value, 'rests'):
                     ok = True
                 else:
@@ -400,7 +421,7 @@ def f3(ctx):
             elif comp is not None and isinstance(comp, ast.Call) and \
                     any(is_name(a, 'rests') for a in comp.args):
                 rest_fups.append((c, comp))
-        maps = [c for c in calls_under(fn) if call_name(c) == 'map' and c.args and is_name(c.args[0], 'func')]
+        maps = [c for c in calls_under(fn) if call_name(c) == 'map' and c.args and is_name(c.args[0], func_param(fn))]
         site = name + '/rests-eager'
         if not rest_fups:
             ctx.bad(site, '%s: the rests are never matched with flatten_up_to' % name, mod.loc(fn))
@@ -431,9 +452,9 @@ def f4(ctx):
     mod = pkg.mod('optree.ops')
     for name in MAP_FAMILY:
         fn = mod.func(name)
-        uses = [n for n in walk(fn) if isinstance(n, ast.Name) and n.id == 'func']
-        maps = [c for c in calls_under(fn) if call_name(c) == 'map' and c.args and is_name(c.args[0], 'func')]
-        calls_of_func = [c for c in calls_under(fn) if call_name(c) == 'func']
+        uses = [n for n in walk(fn) if isinstance(n, ast.Name) and n.id == func_param(fn)]
+        maps = [c for c in calls_under(fn) if call_name(c) == 'map' and c.args and is_name(c.args[0], func_param(fn))]
+        calls_of_func = [c for c in calls_under(fn) if call_name(c) == func_param(fn)]
         ok = len(maps) == 1 and len(uses) == 1 and not calls_of_func
         ctx.check(name + '/func-used-once', ok,
                   '%s: func appears once, as the first argument of the single map()' % name,
@@ -474,10 +495,13 @@ def _transpose_roles(fn):
     """names of the outer and the inner treespec in a transpose function: parameters where they
     are parameters; otherwise the outer one is the treespec of the function's own flatten call"""
     ps = {a.arg for a in fn.args.posonlyargs + fn.args.args + fn.args.kwonlyargs}
+    specs = [a.arg for a in _pos_params(fn)
+             if a.annotation is not None and src(a.annotation).startswith('PyTreeSpec')]
+    if len(specs) == 2:
+        # tree_transpose(outer, inner, tree, /): the two leading treespec parameters, in order
+        return {'outer': specs[0], 'inner': specs[1]}
     if 'inner_treespec' not in ps:
         return None
-    if 'outer_treespec' in ps:
-        return {'outer': 'outer_treespec', 'inner': 'inner_treespec'}
     for s_ in fn.body:
         if isinstance(s_, ast.Assign) and isinstance(s_.value, ast.Call) and \
                 (call_name(s_.value) or '').startswith('_C.flatten') and isinstance(s_.targets[0], ast.Tuple) \
@@ -526,14 +550,16 @@ def f6(ctx):
     if isinstance(nsv, ast.Name):
         defs = [s_ for s_ in fn.body if isinstance(s_, ast.Assign) and is_name(s_.targets[0], nsv.id)]
         text = ' '.join(src(d_.value) for d_ in defs)
-    ctx.check('tree_transpose/namespace-of-both', 'outer_treespec.namespace' in text and
-              'inner_treespec.namespace' in text,
+    tr = _transpose_roles(fn)
+    ctx.require(tr is not None, 'tree_transpose: outer / inner treespec not recognised')
+    ctx.check('tree_transpose/namespace-of-both', '%s.namespace' % tr['outer'] in text and
+              '%s.namespace' % tr['inner'] in text,
               'tree_transpose flattens in the namespace of whichever treespec carries one',
               'tree_transpose flattens with namespace=%s: when only the other treespec carries a '
               'namespace its custom nodes / dict-order mode are ignored' % (text or None), mod.loc(fl[0]))
     nil = kw.get('none_is_leaf')
     ctx.check('tree_transpose/none_is_leaf-of-treespecs', nil is not None and
-              src(nil) in ('outer_treespec.none_is_leaf', 'inner_treespec.none_is_leaf'),
+              src(nil) in ('%s.none_is_leaf' % tr['outer'], '%s.none_is_leaf' % tr['inner']),
               'tree_transpose flattens with the treespecs\' none_is_leaf', None, mod.loc(fl[0]))
     # transpose regrouping: chunk width == stride == inner_size, outer.unflatten consumes the
     # transposed groups, inner.unflatten the subtrees (F5, syntactic)
@@ -613,7 +639,7 @@ def f7(ctx):
     for name, (source, folds) in F7_TABLE.items():
         fn = mod.func(name)
         srcs = [c for c in calls_under(fn) if call_name(c) == source]
-        ok = len(srcs) == 1 and bool(srcs[0].args) and is_name(srcs[0].args[0], 'tree')
+        ok = len(srcs) == 1 and bool(srcs[0].args) and is_name(srcs[0].args[0], tree_param(fn))
         var = None
         for s in fn.body:
             tg = _assign_targets(s)
@@ -641,13 +667,15 @@ def f7(ctx):
 
 
 # ---------------------------------------------------------------------------------------------
+# positional arguments are given as positions of the function's own positional parameters ($0,
+# $1: they are positional-only, so their spelling is not part of the interface); keywords by name
 F9_TABLE = {
-    'treespec_tuple': ('tuple', ['iterable'], {}),
-    'treespec_list': ('list', ['iterable'], {}),
-    'treespec_dict': ('dict', ['mapping'], {'**': 'kwargs'}),
-    'treespec_ordereddict': ('OrderedDict', ['mapping'], {'**': 'kwargs'}),
-    'treespec_defaultdict': ('defaultdict', ['default_factory', 'mapping'], {'**': 'kwargs'}),
-    'treespec_deque': ('deque', ['iterable'], {'maxlen': 'maxlen'}),
+    'treespec_tuple': ('tuple', ['$0'], {}),
+    'treespec_list': ('list', ['$0'], {}),
+    'treespec_dict': ('dict', ['$0'], {'**': 'kwargs'}),
+    'treespec_ordereddict': ('OrderedDict', ['$0'], {'**': 'kwargs'}),
+    'treespec_defaultdict': ('defaultdict', ['$0', '$1'], {'**': 'kwargs'}),
+    'treespec_deque': ('deque', ['$0'], {'maxlen': 'maxlen'}),
 }
 F9_GUARDED = {'treespec_namedtuple': ('is_namedtuple_instance', 'namedtuple'),
               'treespec_structseq': ('is_structseq_instance', 'structseq')}
@@ -677,6 +705,8 @@ def f9(ctx):
             ok = call_name(a0) == ctor
             why = 'collection argument is %s' % (src(a0) if a0 is not None else None)
             if ok:
+                pp = [a.arg for a in _pos_params(fn)]
+                pos = [pp[int(x[1:])] if x.startswith('$') and int(x[1:]) < len(pp) else x for x in pos]
                 got_pos = [src(x) for x in a0.args]
                 got_kw = {(k.arg or '**'): src(k.value) for k in a0.keywords}
                 ok = got_pos == pos and got_kw == kws
@@ -690,6 +720,8 @@ def f9(ctx):
         cfg, guards = _guards(mod, fn)
         mk = [c for c in calls_under(fn) if call_name(c) == calias + '.make_from_collection']
         ok = False
+        pp = [a.arg for a in _pos_params(fn)]
+        what, param = param, (pp[0] if pp else param)
         if len(mk) == 1 and mk[0].args and is_name(mk[0].args[0], param):
             for s, e in guards:
                 t = src(s.test)
@@ -699,7 +731,7 @@ def f9(ctx):
                     if cn and cfg.dominates(cn[0], cfg.node_of(mk[0])):
                         ok = True
         ctx.check(name + '/guard', ok,
-                  '%s rejects non-%s arguments with ValueError before building the treespec' % (name, param),
+                  '%s rejects non-%s arguments with ValueError before building the treespec' % (name, what),
                   '%s: the %s guard does not dominate make_from_collection' % (name, pred), mod.loc(fn))
 
 
